@@ -2356,6 +2356,19 @@ def m_dot(I, n, recv, pos, kw):
     return dot(I, n, recv, pos[0])
 
 
+@method("setflags")
+def m_setflags(I, n, recv, pos, kw):
+    # the writeable flag is not part of the value
+    return NoneV()
+
+
+@method("view")
+def m_view(I, n, recv, pos, kw):
+    if not pos and not kw and isinstance(recv, Arr):
+        return recv
+    return I.unknown("method:view", n)
+
+
 @method("copy")
 def m_copy(I, n, recv, pos, kw):
     if isinstance(recv, Seq):
